@@ -161,6 +161,15 @@ Theorem digest_products_are_substrings_within_limits : forall wt water lim r exc
 Proof. exact cleave_products_substrings. Qed.
 Print Assumptions digest_products_are_substrings_within_limits.
 
+(* provenance of the pool: a member is (the I->L image of) a stop-free contiguous stretch of one of
+   the proteins that passes the limits - the pool invents nothing *)
+Theorem pool_members_are_protein_substrings : forall wt water lim r exc prots q,
+  In q (pool wt water lim r exc prots) ->
+  exists pr p, In pr prots /\ (q = p \/ q = i2l p) /\
+    (exists u v, fst pr = u ++ p ++ v) /\ memZ STAR_code p = false /\ keep wt water lim p = true.
+Proof. exact pool_members_come_from_proteins. Qed.
+Print Assumptions pool_members_are_protein_substrings.
+
 From MoPep Require Gen.Py_AminoAcidSeqRecord.
 From MoPep Require Import Model.PyRt Proofs.Py2CoqDigestProofs.
 
